@@ -7,6 +7,7 @@ mod repeatx;
 mod ring;
 mod subjects;
 mod subjects_derive;
+mod subjects_native;
 mod subjects_src;
 
 use vcommon::*;
